@@ -17,7 +17,7 @@ HERE = os.path.dirname(os.path.dirname(os.path.abspath(__file__)))
 REPO = "/repo"
 
 
-def run_patch(patch, pid, tier="quick", clause=None, timeout=3600):
+def run_patch(patch, pid, tier="quick", clause=None, timeout=1500):
     td = tempfile.mkdtemp(prefix="verif_mut_")
     try:
         # copy tracked working tree (src + tests data needed by checks)
@@ -31,7 +31,10 @@ def run_patch(patch, pid, tier="quick", clause=None, timeout=3600):
         cmd = [os.path.join(HERE, "check"), pid, tier]
         if clause:
             cmd += ["--clause", clause]
-        r = subprocess.run(cmd, capture_output=True, text=True, env=env, cwd=HERE, timeout=timeout)
+        try:
+            r = subprocess.run(cmd, capture_output=True, text=True, env=env, cwd=HERE, timeout=timeout)
+        except subprocess.TimeoutExpired as e:
+            return "TIMEOUT(%ds)" % timeout, (e.stdout or "") if isinstance(e.stdout, str) else ""
         out = r.stdout + r.stderr
         if r.returncode == 1 and "VIOLATION property=%s" % pid in out:
             return "CAUGHT", out
